@@ -441,10 +441,21 @@ def migration_family(tier):
     t0 = time.time()
     build_harness()
     mc = None
-    from vlib import SPEC
-    if os.path.exists(os.path.join(SPEC, "Migration_MC.cfg")):
-        mc = tlc_model_check("migration", "Migration_MC.tla", "Migration_MC.cfg", workers=8,
-                             timeout=900 if tier == "quick" else 3000, xmx="12g", extra="")
+    if not os.environ.get("VERIF_SKIP_MC"):
+        ok_cfgs = ["ok_s1", "ok_s2", "ok_s3", "ok_s4", "ok_live"] + ([] if tier == "quick" else ["ok_s5", "ok_live1"])
+        mcs = [tlc_model_check("migration_" + c, "Migration_MC.tla", "Migration_MC_%s.cfg" % c, workers=6,
+                               timeout=900 if tier == "quick" else 3000, xmx="8g", extra="") for c in ok_cfgs]
+        # seeded design errors and the as-implemented owner switch must be rejected by the invariants
+        for v in ("bad_no_key_lock", "bad_restore_replace", "bad_no_barrier", "bad_ttl_zero_persist", "async_s4"):
+            r = tlc_model_check("migration_" + v, "Migration_MC.tla", "Migration_MC_%s.cfg" % v, workers=4, timeout=600, xmx="4g", extra="")
+            if r.get("ok") or not r.get("violated"):
+                raise ToolError("Migration design model unexpectedly accepts %s" % v)
+        mc = {"name": "Migration_MC[" + ",".join(ok_cfgs) + "] hold with the synchronous owner switch; 4 seeded design errors and the "
+                      "as-implemented asynchronous owner switch (known finding stale_pull_after_owner_switch) are rejected",
+              "ok": all(m["ok"] for m in mcs), "wall_s": round(sum(m["wall_s"] for m in mcs), 1),
+              "states": sum(m.get("states", 0) for m in mcs), "transitions": sum(m.get("transitions", 0) for m in mcs),
+              "violated": next((m.get("violated") for m in mcs if m.get("violated")), None),
+              "out_tail": "\n".join(m.get("out_tail", "") for m in mcs if not m["ok"])}
     d = fresh_dir(os.path.join(WORK, "migration_" + tier))
     parts = 12 if tier == "quick" else 14
     per = 25 if tier == "quick" else 1200
@@ -457,6 +468,10 @@ def migration_family(tier):
         f = os.path.join(d, "directed_%02d.ndjson" % p)
         cmds.append("%s migration-runs --directed --out %s --count %d --seed %d" % (UVERIF, f, 14 if tier == "quick" else 140, sd * 79 + p))
         files.append(f)
+    # the schedule TLC found for the as-implemented owner switch, replayed into the real stack
+    f = os.path.join(d, "stale_00.ndjson")
+    cmds.append("%s migration-runs --stale --out %s --count %d --seed %d" % (UVERIF, f, 6 if tier == "quick" else 60, sd * 83))
+    files.append(f)
     rc, out = _run_cmds(cmds, timeout=3300)
     if rc != 0:
         raise ToolError("migration rig failed: " + out[-2000:])
@@ -476,7 +491,9 @@ def migration_family(tier):
             while j > 0 and json.loads(lines[j]).get("kind") != "reset":
                 j -= 1
             cls = "-"
-            if "ttlinfo" in e:
+            if json.loads(lines[j]).get("directed_stale"):
+                cls = "stale_pull_after_owner_switch"
+            elif "ttlinfo" in e:
                 cls = "pttl=%s:ttl=%s" % (e["ttlinfo"]["pttl_kind"], e["ttlinfo"]["ttl_kind"])
             viols.append({"mon": x["mon"], "case": e, "cls": cls, "reset": json.loads(lines[j])})
     runs, nontrivial, restores, samples = 0, 0, 0, []
